@@ -867,6 +867,29 @@ func (k *c04K) c04BuildPartition(m []int, L int, build string) (ps *align.Partit
 			if err == nil {
 				parse(ps.String())
 			}
+		case "sitewise":
+			// one AddRange call per site, in site order: the names of the partitions come back after others were
+			// declared (maps whose blocks do not first appear in code order are built by ranges instead, the
+			// partition numbers being those of first declaration)
+			canonical, next := true, 0
+			for _, b := range m {
+				if b > next {
+					canonical = false
+				}
+				if b == next {
+					next++
+				}
+			}
+			if !canonical {
+				api(false, false)
+				break
+			}
+			ps = align.NewPartitionSet(L)
+			for site, b := range m {
+				if err = ps.AddRange("p"+strconv.Itoa(b), "GTR", site, site, 1); err != nil {
+					return
+				}
+			}
 		case "text":
 			parse(c04PartText(m, L, true, true))
 		default:
@@ -1478,7 +1501,7 @@ func c04RunRef(maxList int) func(c *mc.Ctx, seqs []string) {
 	}
 }
 
-var c04Builds = []string{"ranges", "modulo", "modloose", "string", "text"}
+var c04Builds = []string{"ranges", "modulo", "modloose", "string", "text", "sitewise"}
 
 func c04RunSplit(c *mc.Ctx, seqs []string) {
 	L := len(seqs[0])
@@ -1819,7 +1842,7 @@ func init() {
 		Rule: cliStreamRule[1:] + "(Free-running complement under the race detector: 8 goroutines doing this property's operations on objects of their own must get the values the same work gives alone.)  " + "bounded-exhaustive enumeration, every case on a fresh alignment (and, for all 1x4 and 2x3 [thorough: 2x4] alignments, the window/list/complement/trimming/reference-coordinate cases also on an object that was first the same rows rotated by one column, resp. reversed, answered every coordinate query in that state and was edited in place residue by residue), results compared (names, row order, residues, Length()) with column picking on the model rows; alignments are all n-row alignments of the given lengths over {A,C,-} (rows named a,b,c); integer arguments range over every value of [-1, L+1] (windows also with lengths at and near the largest and smallest integer); Transpose / DiffWithFirst also on rows of 3 bytes built from {A, C, U+00E9}. " +
 			"(iv) n=1 L=0..4, n=2 L=0..4, n=3 L=0..3 (thorough: n=1 L<=6, n=2 L<=5, n=3 L<=4): SubAlign and InverseCoordinates for all (start,length) in [-1,L+1]^2 (the inverse windows also extracted and concatenated as subseq --reverse does, followed by a further extraction from the same alignment); SubAlign(0,k) ++ SubAlign(k,L-k) for k=0..L; TrimSequences for all sizes x both ends; SelectSites and InversePositions for all site lists of length 1..3 (n=3: 1..2) over [-1,L+1], repeats and any order. " +
 			"(v) same alignments with L>=1, every row and one unknown name as reference: RefCoordinates for all (start,length) in [-1,L+1]^2, followed by SubAlign of the returned window; RefSites for the same site lists. " +
-			"(vi) Split: n=1 L=1..6, n=2 L=1..4, n=3 L=1..2 (thorough: n=3 L=3, and n=2 L=5..6 over {A,-}) x every map of the L sites onto exactly 1, 2 or 3 blocks x 5 ways of building the PartitionSet (AddRange with runs; with greedy arithmetic progressions a-b/k, end on the last site; the same with the end extended to just before the next multiple; String() of the first re-parsed by io/partition; a partition file with the modulo forms parsed by io/partition), plus every 2-block map of L+1 sites (must be refused). " +
+			"(vi) Split: n=1 L=1..6, n=2 L=1..4, n=3 L=1..2 (thorough: n=3 L=3, and n=2 L=5..6 over {A,-}) x every map of the L sites onto exactly 1, 2 or 3 blocks x 6 ways of building the PartitionSet (one AddRange call per site in site order, so that partition names come back after others were declared; AddRange with runs; with greedy arithmetic progressions a-b/k, end on the last site; the same with the end extended to just before the next multiple; String() of the first re-parsed by io/partition; a partition file with the modulo forms parsed by io/partition), plus every 2-block map of L+1 sites (must be refused). " +
 			"(i) AddRange on L=1..5 for all (start,end) in [-1,L+1]^2 x modulo -1..3, through the API and through a one-line partition file. " +
 			"(ii) Transpose (once: row j named j is column j; twice: residues) and DiffWithFirst then ReplaceMatchChars over {A,C,-,.}: n=1 L<=5, n=2 L<=4, n=3 L<=2 (thorough +1); the same two on rows of every length 8..40 and 63..65, 255..257 whose first row cycles through 22 amino acids and symbols and whose other rows differ from it at one position each (by the letter whose code differs in the lowest bit where there is one); SelectSites (512 of 600 sites), SubAlign and Transpose on a 512x600 alignment with GOMAXPROCS 2 and 4 under the controlled scheduler (sequential operations: one execution unless they spawn goroutines; rows in the same order under every interleaving). " +
 			"(iii) Concat and Append for every pair (first: 0..2 rows named from {a,b} in any order, second: 0..2 rows named from {a,b,c} in any order, lengths 0..2 (thorough 0..3)). " +
